@@ -207,6 +207,13 @@ impl PoolWrite<'_> {
 
 	/// Writes the constant pool to the specified writer. The first thing written is an `u16` specifying the size of the constant pool.
 	pub(crate) fn write(self, writer: &mut impl ClassWrite) -> Result<()> {
+		#[cfg(feature = "verif")]
+		crate::verif::emit(|| crate::verif::Event::Pool {
+			count: self.count,
+			entries: self.inner.len(),
+			two_slot_entries: self.inner.iter().filter(|entry| matches!(entry, PoolEntry::Long { .. } | PoolEntry::Double { .. })).count(),
+		});
+
 		writer.write_u16(self.count)?;
 
 		for entry in self.inner {
